@@ -55,6 +55,7 @@ func (b *sb) seen(t *txDef, cr string) { b.add("ev seen %s cr=%s", t.tid, cr) }
 func (b *sb) probe(top int) {
 	b.add("probe %d", top)
 	b.add("spec probe %d", top)
+	b.add("inv %d", top)
 	for _, t := range b.txs {
 		b.add("details %s", hx(t.hash))
 		b.add("spec details %s", hx(t.hash))
@@ -255,7 +256,7 @@ func exhaustive() []core.Case {
 	rec = func(l *ledger, lines []string, top int32, branch int, depth int) {
 		if depth > 0 {
 			ops := append(append([]string{}, header...), lines...)
-			ops = append(ops, fmt.Sprintf("probe %d", top), fmt.Sprintf("spec probe %d", top))
+			ops = append(ops, fmt.Sprintf("probe %d", top), fmt.Sprintf("spec probe %d", top), fmt.Sprintf("inv %d", top))
 			for _, t := range txs {
 				ops = append(ops, "details "+hx(t.hash), "spec details "+hx(t.hash))
 			}
